@@ -21,8 +21,18 @@ CFG = {
         "40-70 KiB: the first page alone over 1 MiB and more rows after it), both kinds, through copy_profile / copy_to / copy_store — dumps compare values > 512 bytes by length + FNV-1a digest; "
         "every dump is read with fetch_all and cross-checked against the paged Scan dump; "
         "(h) the shipped Indy fixture and Indy wallets written by the harness (RAW / ARGON2I_INT / ARGON2I_MOD, 0-64 items, both tag tables, non-dense ids). "
+        "(j) failure semantics of the migration (kind c18:indyx, harness/src/c18_indyx.rs): one generated wallet and a script of ops, the file classified after every op "
+        "(indy / askar + dump / mixed + row counts / other / missing): wrong wallet key (another valid raw key, 31/33-byte base58, non-base58, empty, trailing blank, leading '1'; "
+        "other passphrases) and wrong method (RAW / ARGON2I_INT / ARGON2I_MOD swapped, invalid names) for each wallet, then the right key; migrate twice (+ wrong key / invalid / other method "
+        "on the migrated store); an Askar store, an empty file, a missing file; damaged metadata (salt of 0/1/15/16/17 bytes or none/null on RAW and Argon2i wallets, not JSON, empty, keys missing / "
+        "a string / cut to 0,11,12,27,28,266 bytes / bit-flipped / authentic but not the msgpack key record (4 shapes), no row) then repaired; damaged cells (type/name/value/key column and "
+        "encrypted/plaintext tag name, encrypted tag value of the first/last/a random row cut to 0,1,11,12,13,27,28,29 bytes, bit-flipped, 31-byte item key, non-UTF-8 tag; sometimes two columns of one "
+        "row) then repaired; a RAISE(ABORT) trigger and a SIGKILL (child process stalled by a counting trigger inside `DELETE FROM items_old` of the j-th row; killed when the file shows every earlier "
+        "statement committed) at the first/last/a random row, then a re-run. Judged on every case: all-or-nothing (after a failed / panicking / killed attempt the Indy tables hold row for row what they held, "
+        "and after the damage is repaired the right key migrates the wallet to exactly its records), refusal kinds for wrong key / method / second run; what migrate answers on a DAMAGED wallet "
+        "(error kind or panic) is outside the property's domain and only counted (feat obs:indyx:<panic|err:Kind|ok>:<damage>), the model predicts it. "
         "non-trivial = a copy case whose source holds > PAGE_SIZE live records in some profile, or >= 2 profiles, or that exercises a refusal / fault / existing "
-        "target; an Indy case with >= 1 item; distinct = hash of the case"
+        "target; an Indy case with >= 1 item; an indyx case in which some migrate/kill op ran on an Indy wallet (all generated ones); distinct = hash of the case"
     ),
     "assumptions": [
         SQLITE,
@@ -31,6 +41,9 @@ CFG = {
         "Indy part: an abstract correct AEAD (dec (enc m) = m) stands for ChaCha20-Poly1305; String::from_utf8 returns the string for the UTF-8 bytes of the wallet's strings; items.id is a primary key; "
         "the GROUP_CONCAT/HEX packing of tag lists and hex::decode are inverse (the packing is executable in the driver, not in the theorem); master-key derivation and msgpack decoding of the key record are a parameter (`unwrapKeys`)",
         "a statement failure injected by a trigger is representative of a backend failure at that statement",
+        "indyx: the on-disk state after a failed or killed run is what the committed statements left (SQLite atomic commit / hot-journal rollback); interruption points modelled and exercised: every error exit of "
+        "migrate and the deletion of any migrated row (fault, SIGKILL) — not a kill between the tag inserts of one row; base58 / Argon2i / msgpack are parameters of the model (`KeyPrims`), instantiated in the driver by a "
+        "base58 decoder and stand-ins; `decrypt_in_place` reports a ciphertext shorter than the tag as Input and any other failure as Encryption (validated by the cut cells)",
     ],
     "trusted_base": [
         "the harness's independent writer/reader of the Indy-SDK SQLite wallet format (schema, nonce||ct||tag columns, per-item keys under the value key, msgpack key record = fixarray(7) of bin8(32), "
@@ -47,6 +60,8 @@ def nontrivial(rec):
     feat = rec["impl"].get("feat") or {}
     if kind == "c18:indy":
         return len(case.get("items") or []) >= 1
+    if kind == "c18:indyx":
+        return any(k.startswith(("migrate:", "kill:")) for k in feat) and case.get("start") == "indy"
     if kind == "c18:fixture":
         return False
     if kind == "c18:copy":
